@@ -1158,21 +1158,20 @@ Section Sound.
     - rewrite <- (map_beval_sym (s :: s' :: bv)), <- (flat_syms (s :: s' :: bv)). reflexivity.
   Qed.
 
-  Lemma trans_sub_sound G V x p r v0 v : env_ok G V -> env_canon G -> sub_ne G (ESub x p) = true ->
+  Lemma trans_sub_sound G V x p r v0 v : env_ok G V -> env_canon G ->
     trans_sub num G x p = Some r -> lookup V x = Some v0 -> sub_val v0 p = Some v -> sem rho r v.
   Proof.
-    intros Hok Hcan Hsn Ht Hv0 Hv. unfold trans_sub in Ht. cbn [sub_ne] in Hsn.
+    intros Hok Hcan Ht Hv0 Hv. unfold trans_sub in Ht.
     destruct p as [|i q]; [discriminate|]. set (p := i :: q) in *.
     destruct (lookup G x) as [[t bv]|] eqn:E; [|discriminate].
     destruct (Hok _ _ _ E) as (v' & Hv' & Hd). rewrite Hv0 in Hv'. injection Hv' as <-.
     rewrite (Hcan _ _ _ E) in Hd.
-    apply obind_some in Ht as (t' & Hty & Ht). rewrite Hty in Hsn.
+    apply obind_some in Ht as (t' & Hty & Ht).
     pose proof (sub_walk p t [x] v0 t' v Hd Hty Hv) as Hw. change ([x] ++ p) with (x :: p) in Hw.
-    assert (Ok' : t' <> TTuple []) by (intros ->; discriminate).
-    assert (Hr : forall T, T = t' -> T <> TBool -> T <> TTuple [] ->
+    assert (Hr : forall T, T = t' -> T <> TBool ->
               r = (T, Nd (map (fun s => L (sym num s)) (arg_names (x :: p) T)))).
-    { intros T -> N1 N2. destruct t' as [|w|i0 f0| |[|a l]]; try congruence; now injection Ht as <-. }
-    unfold sem, den. destruct t' as [|w|i0 f0| |[|a l]]; try congruence.
+    { intros T -> N1. destruct t' as [|w|i0 f0| |l]; try congruence; now injection Ht as <-. }
+    unfold sem, den. destruct t' as [|w|i0 f0| |l].
     - injection Ht as <-. exact Hw.
     - rewrite (Hr _ eq_refl) by discriminate. cbn [fst snd]. rewrite flat_syms, map_beval_sym. exact Hw.
     - rewrite (Hr _ eq_refl) by discriminate. cbn [fst snd]. rewrite flat_syms, map_beval_sym. exact Hw.
@@ -1241,15 +1240,14 @@ Section Main.
   Hypothesis Hcan : env_canon G.
 
   Definition sound_at (e : pexp) : Prop :=
-    forall r v, sub_ne G e = true -> trans_exp num G e = Some r -> eval_exp V e = Some v -> sem rho r v.
+    forall r v, trans_exp num G e = Some r -> eval_exp V e = Some v -> sem rho r v.
 
-  Lemma trans_list_sound l : Forall sound_at l -> forallb (sub_ne G) l = true ->
+  Lemma trans_list_sound l : Forall sound_at l ->
     forall rs vs, trans_list num G l = Some rs -> eval_list V l = Some vs -> Forall2 (sem rho) rs vs.
   Proof.
-    induction 1 as [|e l He _ IH]; intros Hsc rs vs Ht Hv; cbn [trans_list eval_list] in Ht, Hv.
+    induction 1 as [|e l He _ IH]; intros rs vs Ht Hv; cbn [trans_list eval_list] in Ht, Hv.
     - injection Ht as <-. injection Hv as <-. constructor.
-    - cbn [forallb] in Hsc. apply andb_true_iff in Hsc as [S1 S2].
-      destruct (trans_exp num G e) as [a|] eqn:Ea; [|discriminate].
+    -       destruct (trans_exp num G e) as [a|] eqn:Ea; [|discriminate].
       destruct (trans_list num G l) as [b|] eqn:Eb; [|discriminate]. injection Ht as <-.
       destruct (eval_exp V e) as [va|] eqn:Eva; [|discriminate].
       destruct (eval_list V l) as [vb|] eqn:Evb; [|discriminate]. injection Hv as <-.
@@ -1259,7 +1257,7 @@ Section Main.
   Theorem trans_exp_sound_at : forall e, sound_at e.
   Proof.
     induction e as [x|x p|op l IH|op a IHa|c t f IHc IHt IHf|c|l|l IH|op a b IHa IHb|op a b IHa IHb|t c|a IHa|a IHa|]
-      using pexp_ind2; intros r v Hsc Ht Hv; cbn [sub_ne] in Hsc.
+      using pexp_ind2; intros r v Ht Hv.
     - cbn [eval_exp] in Hv. eapply trans_name_sound; eassumption.
     - cbn [eval_exp] in Hv. cbn [trans_exp] in Ht.
       destruct p as [|i q]; [discriminate|]. apply obind_some in Hv as (v0 & Hv0 & Hv).
@@ -1273,7 +1271,6 @@ Section Main.
       apply obind_some in Ht as (ra & Hra & Ht). apply obind_some in Hv as (va & Hva & Hv).
       eapply trans_un_sound; try eassumption. now apply IHa.
     - cbn [trans_exp] in Ht. cbn [eval_exp] in Hv.
-      apply andb_true_iff in Hsc as [Hsc S3]. apply andb_true_iff in Hsc as [S1 S2].
       apply obind_some in Ht as (rc & Hrc & Ht). apply obind_some in Ht as (rt & Hrt & Ht).
       apply obind_some in Ht as (rf & Hrf & Ht).
       apply obind_some in Hv as (vc & Hvc & Hv). apply obind_some in Hv as (vt & Hvt & Hv).
@@ -1289,11 +1286,11 @@ Section Main.
       change (eval_exp V (ETuple l)) with (option_map VT (eval_list V l)) in Hv.
       apply option_map_some in Ht as (rs & Hrs & ->). apply option_map_some in Hv as (vs & Hvs & ->).
       apply tuple_sound. eapply trans_list_sound; eassumption.
-    - cbn [trans_exp] in Ht. cbn [eval_exp] in Hv. apply andb_true_iff in Hsc as [S1 S2].
+    - cbn [trans_exp] in Ht. cbn [eval_exp] in Hv.
       apply obind_some in Ht as (ra & Hra & Ht). apply obind_some in Ht as (rb & Hrb & Ht).
       apply obind_some in Hv as (va & Hva & Hv). apply obind_some in Hv as (vb & Hvb & Hv).
       eapply trans_cmp_sound; try eassumption; [now apply IHa|now apply IHb].
-    - cbn [trans_exp] in Ht. cbn [eval_exp] in Hv. apply andb_true_iff in Hsc as [S1 S2].
+    - cbn [trans_exp] in Ht. cbn [eval_exp] in Hv.
       apply obind_some in Ht as (ra & Hra & Ht). apply obind_some in Ht as (rb & Hrb & Ht).
       apply obind_some in Hv as (va & Hva & Hv). apply obind_some in Hv as (vb & Hvb & Hv).
       eapply trans_bin_sound; try eassumption; [now apply IHa|now apply IHb].
@@ -1311,9 +1308,9 @@ End Main.
 
 (* every expression of the language, every environment, every assignment *)
 Theorem trans_exp_sound num rho G V e r v :
-  env_ok num rho G V -> env_canon G -> sub_ne G e = true ->
+  env_ok num rho G V -> env_canon G ->
   trans_exp num G e = Some r -> eval_exp V e = Some v -> den rho r = Some v.
-Proof. intros Hok Hcan Hsn Ht Hv. exact (trans_exp_sound_at num rho G V Hok Hcan e r v Hsn Ht Hv). Qed.
+Proof. intros Hok Hcan Ht Hv. exact (trans_exp_sound_at num rho G V Hok Hcan e r v Ht Hv). Qed.
 
 (* ================================================================== *)
 (* statements                                                          *)
@@ -1695,11 +1692,10 @@ Section Wf.
   Hypothesis Hgood : env_good G.
 
   (* every translated value that has a meaning is shaped as its type *)
-  Theorem trans_exp_wf : forall e r v, sub_ne G e = true ->
-    trans_exp num G e = Some r -> eval_exp V e = Some v -> wf_res r.
+  Theorem trans_exp_wf : forall e r v, trans_exp num G e = Some r -> eval_exp V e = Some v -> wf_res r.
   Proof.
     induction e as [x|x p|op l IH|op a IHa|c t f IHc IHt IHf|c|l|l IH|op a b IHa IHb|op a b IHa IHb|t c|a IHa|a IHa|]
-      using pexp_ind2; intros r v Hsn Ht Hv.
+      using pexp_ind2; intros r v Ht Hv.
     - (* Name *)
       cbn [trans_exp] in Ht. destruct (lookup G x) as [[t bv]|] eqn:E; [|discriminate].
       apply option_map_some in Ht as (tr & Hx & ->). pose proof (Hcan _ _ _ E) as ->. pose proof (Hgood _ _ _ E) as Ok.
@@ -1736,16 +1732,14 @@ Section Wf.
         (option_map (fun rs => (TTuple (map fst rs), Nd (map snd rs))) (trans_list num G l)) in Ht.
       apply option_map_some in Ht as (rs & _ & ->). exact I.
     - (* Compare: the result is a bare expression, and its value is a bool *)
-      pose proof (trans_exp_sound num rho G V _ r v Hok Hcan Hsn Ht Hv) as Hs. cbn [sub_ne] in Hsn.
-      apply andb_true_iff in Hsn as [Sa Sb].
+      pose proof (trans_exp_sound num rho G V _ r v Hok Hcan Ht Hv) as Hs.
       cbn [trans_exp] in Ht. cbn [eval_exp] in Hv.
       apply obind_some in Ht as (ra & _ & Ht). apply obind_some in Ht as (rb & _ & Ht).
       apply obind_some in Hv as (va & _ & Hv). apply obind_some in Hv as (vb & _ & Hv).
       destruct (trans_cmp_leaf _ _ _ _ Ht) as (e & He). destruct (eval_cmp_vb _ _ _ _ Hv) as (x & ->).
       apply sem_type in Hs. cbn [type_of] in Hs. unfold wf_res. rewrite <- Hs. now exists e.
     - (* BinOp *)
-      pose proof (trans_exp_sound num rho G V _ r v Hok Hcan Hsn Ht Hv) as Hs. cbn [sub_ne] in Hsn.
-      apply andb_true_iff in Hsn as [Sa Sb].
+      pose proof (trans_exp_sound num rho G V _ r v Hok Hcan Ht Hv) as Hs.
       cbn [trans_exp] in Ht. cbn [eval_exp] in Hv.
       apply obind_some in Ht as (ra & Hra & Ht). apply obind_some in Ht as (rb & Hrb & Ht).
       apply obind_some in Hv as (va & Hva & Hv). apply obind_some in Hv as (vb & Hvb & Hv).
@@ -1753,16 +1747,16 @@ Section Wf.
       apply wf_of_texp. apply sem_type in Hs. unfold of_texp in Hs. cbn [fst] in Hs. rewrite <- Hs.
       destruct (eval_bin_kind _ _ _ _ _ Hv) as [(x & -> & p & q & -> & ->)|Q]; [|exact Q].
       exfalso. apply NB.
-      pose proof (trans_exp_sound num rho G V _ _ _ Hok Hcan Sa Hra Hva) as S1.
-      pose proof (trans_exp_sound num rho G V _ _ _ Hok Hcan Sb Hrb Hvb) as S2.
+      pose proof (trans_exp_sound num rho G V _ _ _ Hok Hcan Hra Hva) as S1.
+      pose proof (trans_exp_sound num rho G V _ _ _ Hok Hcan Hrb Hvb) as S2.
       apply sem_type in S1, S2. cbn [type_of] in S1, S2. now split.
     - cbn [trans_exp] in Ht. apply lift_some in Ht as (te & Ht & ->). apply wf_of_texp. now apply cast_const_q in Ht.
     - cbn [trans_exp] in Ht. cbn [eval_exp] in Hv.
       apply obind_some in Ht as (ra & Hra & Ht). apply obind_some in Hv as (va & Hva & _).
-      exact (trans_int_wf _ _ (IHa _ _ Hsn Hra Hva) Ht).
+      exact (trans_int_wf _ _ (IHa _ _ Hra Hva) Ht).
     - cbn [trans_exp] in Ht. cbn [eval_exp] in Hv.
       apply obind_some in Ht as (ra & Hra & Ht). apply obind_some in Hv as (va & Hva & _).
-      exact (trans_float_wf _ _ (IHa _ _ Hsn Hra Hva) Ht).
+      exact (trans_float_wf _ _ (IHa _ _ Hra Hva) Ht).
     - discriminate.
   Qed.
 End Wf.
@@ -1910,26 +1904,25 @@ Section Good.
   Hypothesis Hgood : env_good G.
 
   Definition good_at (e : pexp) : Prop :=
-    sub_ne G e = true -> forall r v, trans_exp num G e = Some r -> eval_exp V e = Some v -> vgood v.
+    forall r v, trans_exp num G e = Some r -> eval_exp V e = Some v -> vgood v.
 
-  Lemma good_list l : Forall good_at l -> forallb (sub_ne G) l = true ->
+  Lemma good_list l : Forall good_at l ->
     forall rs vs, trans_list num G l = Some rs -> eval_list V l = Some vs -> Forall vgood vs.
   Proof.
-    induction 1 as [|e l He _ IH]; intros Hn rs vs Ht Hv; cbn [trans_list eval_list] in Ht, Hv.
+    induction 1 as [|e l He _ IH]; intros rs vs Ht Hv; cbn [trans_list eval_list] in Ht, Hv.
     - injection Hv as <-. constructor.
-    - cbn [forallb] in Hn. apply andb_true_iff in Hn as [N1 N2].
-      destruct (trans_exp num G e) as [a|] eqn:Ea; [|discriminate].
+    - destruct (trans_exp num G e) as [a|] eqn:Ea; [|discriminate].
       destruct (trans_list num G l) as [b|] eqn:Eb; [|discriminate]. injection Ht as <-.
       destruct (eval_exp V e) as [va|] eqn:Eva; [|discriminate].
       destruct (eval_list V l) as [vb|] eqn:Evb; [|discriminate]. injection Hv as <-.
-      constructor; [exact (He N1 _ _ Ea Eva)|exact (IH N2 _ _ eq_refl eq_refl)].
+      constructor; [exact (He _ _ Ea Eva)|exact (IH _ _ eq_refl eq_refl)].
   Qed.
 
   (* the type of every value the evaluator gives to an accepted expression is ty_good *)
   Theorem trans_exp_good : forall e, good_at e.
   Proof.
     induction e as [x|x p|op l IH|op a IHa|c t f IHc IHt IHf|c|l|l IH|op a b IHa IHb|op a b IHa IHb|t c|a IHa|a IHa|]
-      using pexp_ind2; intros Hn r v Ht Hv; cbn [sub_ne] in Hn.
+      using pexp_ind2; intros r v Ht Hv.
     - cbn [trans_exp] in Ht. cbn [eval_exp] in Hv. destruct (lookup G x) as [[t bv]|] eqn:E; [|discriminate].
       destruct (Hok _ _ _ E) as (v' & Hv' & Hd). rewrite Hv in Hv'. injection Hv' as <-.
       destruct (decode_type _ _ _ Hd) as [T _]. unfold vgood. rewrite T. exact (Hgood _ _ _ E).
@@ -1944,20 +1937,19 @@ Section Good.
       apply option_map_some in Hv as (bs & _ & ->). reflexivity.
     - cbn [trans_exp] in Ht. cbn [eval_exp] in Hv.
       apply obind_some in Ht as (ra & Hra & _). apply obind_some in Hv as (va & Hva & Hv).
-      pose proof (IHa Hn _ _ Hra Hva) as Ga.
+      pose proof (IHa _ _ Hra Hva) as Ga.
       destruct op, va; cbn [eval_un] in Hv; try discriminate; injection Hv as <-; [reflexivity|].
       apply vgood_vi. now apply vgood_vi_inv in Ga.
-    - apply andb_true_iff in Hn as [Hn N3]. apply andb_true_iff in Hn as [N1 N2].
-      cbn [trans_exp] in Ht. cbn [eval_exp] in Hv.
+    - cbn [trans_exp] in Ht. cbn [eval_exp] in Hv.
       apply obind_some in Ht as (rc & Hrc & Ht). apply obind_some in Ht as (rt & Hrt & Ht).
       apply obind_some in Ht as (rf & Hrf & _).
       apply obind_some in Hv as (vc & Hvc & Hv). apply obind_some in Hv as (vt & Hvt & Hv).
       apply obind_some in Hv as (vf & Hvf & Hv).
-      exact (eval_if_good _ _ _ _ (IHt N2 _ _ Hrt Hvt) (IHf N3 _ _ Hrf Hvf) Hv).
+      exact (eval_if_good _ _ _ _ (IHt _ _ Hrt Hvt) (IHf _ _ Hrf Hvf) Hv).
     - cbn [eval_exp] in Hv. now apply eval_const_good in Hv.
     - cbn [eval_exp] in Hv. apply option_map_some in Hv as (vs & Hvs & ->).
       apply vgood_vt.
-      clear Hn Ht. revert vs Hvs. induction l as [|c l IHl]; intros vs Hvs; cbn [eval_const_elts] in Hvs.
+      clear Ht. revert vs Hvs. induction l as [|c l IHl]; intros vs Hvs; cbn [eval_const_elts] in Hvs.
       + injection Hvs as <-. constructor.
       + destruct c as [b|z|neg x|cs|]; try discriminate.
         * destruct (eval_const (CInt z)) as [v0|] eqn:E0; [|discriminate].
@@ -1973,18 +1965,18 @@ Section Good.
         (option_map (fun rs => (TTuple (map fst rs), Nd (map snd rs))) (trans_list num G l)) in Ht.
       change (eval_exp V (ETuple l)) with (option_map VT (eval_list V l)) in Hv.
       apply option_map_some in Ht as (rs & Hrs & _). apply option_map_some in Hv as (vs & Hvs & ->).
-      apply vgood_vt. exact (good_list l IH Hn rs vs Hrs Hvs).
+      apply vgood_vt. exact (good_list l IH rs vs Hrs Hvs).
     - cbn [eval_exp] in Hv. apply obind_some in Hv as (va & _ & Hv). apply obind_some in Hv as (vb & _ & Hv).
       destruct (eval_cmp_vb _ _ _ _ Hv) as (x & ->). reflexivity.
-    - apply andb_true_iff in Hn as [N1 N2]. cbn [trans_exp] in Ht. cbn [eval_exp] in Hv.
+    - cbn [trans_exp] in Ht. cbn [eval_exp] in Hv.
       apply obind_some in Ht as (ra & Hra & Ht). apply obind_some in Ht as (rb & Hrb & _).
       apply obind_some in Hv as (va & Hva & Hv). apply obind_some in Hv as (vb & Hvb & Hv).
-      exact (eval_bin_good _ _ _ _ _ (IHa N1 _ _ Hra Hva) (IHb N2 _ _ Hrb Hvb) Hv).
+      exact (eval_bin_good _ _ _ _ _ (IHa _ _ Hra Hva) (IHb _ _ Hrb Hvb) Hv).
     - cbn [eval_exp] in Hv. now apply eval_cast_good in Hv.
     - cbn [trans_exp] in Ht. cbn [eval_exp] in Hv.
       apply obind_some in Ht as (ra & Hra & Ht). apply obind_some in Hv as (va & Hva & Hv).
-      pose proof (IHa Hn _ _ Hra Hva) as Ga.
-      pose proof (trans_exp_sound num rho G V a ra va Hok Hcan Hn Hra Hva) as Hs.
+      pose proof (IHa _ _ Hra Hva) as Ga.
+      pose proof (trans_exp_sound num rho G V a ra va Hok Hcan Hra Hva) as Hs.
       destruct va as [|w n|i f n| |]; cbn [eval_int] in Hv; try discriminate; injection Hv as <-; [exact Ga|].
       pose proof (sem_type _ _ _ Hs) as T. cbn [type_of] in T. unfold trans_int in Ht. rewrite <- T in Ht.
       apply obind_some in Ht as (l & Hl & Ht).
@@ -1995,7 +1987,7 @@ Section Good.
       apply vgood_vi. now apply shipped_qint_in.
     - cbn [trans_exp] in Ht. cbn [eval_exp] in Hv.
       apply obind_some in Ht as (ra & Hra & _). apply obind_some in Hv as (va & Hva & Hv).
-      pose proof (IHa Hn _ _ Hra Hva) as Ga.
+      pose proof (IHa _ _ Hra Hva) as Ga.
       destruct va as [|w n|i f n| |]; cbn [eval_float] in Hv; try discriminate; [|injection Hv as <-; exact Ga].
       destruct (qfixed_for_size w) as [tf|] eqn:Q; [|discriminate].
       destruct (qfixed_for_size_spec _ _ Q) as (f & ->). injection Hv as <-.
@@ -2109,7 +2101,7 @@ Section Stmt.
     exact (Hg _ _ _ Hy).
   Qed.
 
-  (* a statement: the per-program side conditions are seq_ok and sub_ne (stmt_guard) *)
+  (* a statement: the only per-program side condition is seq_ok (stmt_guard) *)
   Theorem trans_stmt_sound rho G V rt s ds G' V' :
     env_ok num rho G V -> env_canon G -> env_good G -> ty_good rt = true ->
     stmt_guard num G rt s = true ->
@@ -2119,26 +2111,26 @@ Section Stmt.
     intros Hok Hcan Hgood Hrt Hg Ht Hv.
     destruct s as [x e|e|e|]; cbn [trans_stmt eval_stmt] in *.
     - (* Assign *)
-      unfold stmt_guard, stmt_guard_g in Hg. apply andb_true_iff in Hg as [Hsn Hg]. unfold trans_assign in Ht.
+      unfold stmt_guard, stmt_guard_g in Hg. unfold trans_assign in Ht.
       destruct (trans_exp num G e) as [r0|] eqn:Et; [|discriminate]. injection Ht as <- <-.
       apply option_map_some in Hv as (v & Hv & ->).
-      pose proof (trans_exp_sound num rho G V e _ v Hok Hcan Hsn Et Hv) as Hs.
-      pose proof (trans_exp_wf num rho G V Hok Hcan Hgood e _ v Hsn Et Hv) as W.
-      pose proof (trans_exp_good num rho G V Hok Hcan Hgood e Hsn _ v Et Hv) as Gv.
+      pose proof (trans_exp_sound num rho G V e _ v Hok Hcan Et Hv) as Hs.
+      pose proof (trans_exp_wf num rho G V Hok Hcan Hgood e _ v Et Hv) as W.
+      pose proof (trans_exp_good num rho G V Hok Hcan Hgood e _ v Et Hv) as Gv.
       unfold res_guard_g in Hg. rewrite andb_true_r in Hg.
       pose proof (regroup_canon rho x r0 v Hs W) as Hn. rewrite <- (regroup_value_type r0) in Hn.
       destruct (bind_res_sound rho G V x (regroup_value r0) v Hok Hcan (regroup_value_sem rho _ _ Hs) Hn Hg) as [A B].
       split; [exact A|split; [exact B|]]. apply env_good_bind; [exact Hgood|].
       rewrite regroup_value_type. unfold vgood in Gv. now rewrite (sem_type _ _ _ Hs) in Gv.
     - (* Return *)
-      unfold stmt_guard, stmt_guard_g in Hg. apply andb_true_iff in Hg as [Hsn Hg]. unfold trans_return in Ht.
+      unfold stmt_guard, stmt_guard_g in Hg. unfold trans_return in Ht.
       apply obind_some in Ht as (r0 & Et & Ht). apply obind_some in Ht as (r1 & Ec & Ht).
       rewrite Et in Hg. cbn [obind] in Hg. rewrite Ec in Hg.
       destruct (lookup G ret_id); [discriminate|]. injection Ht as <- <-.
       apply obind_some in Hv as (v & Hv & Hv'). apply obind_some in Hv' as (v' & Hc & Hv').
       destruct (lookup V ret_id); [discriminate|]. injection Hv' as <-.
-      pose proof (trans_exp_sound num rho G V e _ v Hok Hcan Hsn Et Hv) as Hs.
-      pose proof (trans_exp_wf num rho G V Hok Hcan Hgood e _ v Hsn Et Hv) as W.
+      pose proof (trans_exp_sound num rho G V e _ v Hok Hcan Et Hv) as Hs.
+      pose proof (trans_exp_wf num rho G V Hok Hcan Hgood e _ v Et Hv) as W.
       destruct (ret_coerce_sound rho rt r0 v r1 v' Hs Ec Hc) as [Hs1 Hty].
       pose proof (ret_coerce_wf rt r0 r1 W Ec) as W1.
       unfold res_guard_g in Hg. rewrite andb_true_r in Hg.
@@ -2428,28 +2420,25 @@ Proof.
 Qed.
 
 Lemma subscript_of_tuple_sound num rho G V x p r v :
-  env_ok num rho G V -> env_canon G -> sub_ne G (ESub x p) = true ->
+  env_ok num rho G V -> env_canon G ->
   trans_exp num G (ESub x p) = Some r -> eval_exp V (ESub x p) = Some v ->
   den rho r = Some v /\ type_of v = fst r.
 Proof.
-  intros H1 H2 H3 H4 H5. pose proof (trans_exp_sound num rho G V _ r v H1 H2 H3 H4 H5) as H.
+  intros H1 H2 H4 H5. pose proof (trans_exp_sound num rho G V _ r v H1 H2 H4 H5) as H.
   split; [exact H|]. now apply decode_type in H.
 Qed.
 
-(* (1') what is LEFT of it: a subscript that selects an EMPTY tuple component is still ONE fabricated
-   symbol ("u.0" of u: Tuple[Tuple[()], bool]) typed Tuple[()], for a value that has no bits *)
-Lemma subscript_of_empty_refuted :
-  exists num rho G V e r v, env_ok num rho G V /\ env_canon G /\
-    trans_exp num G e = Some r /\ eval_exp V e = Some v /\ den rho r <> Some v /\ sub_ne G e = false.
+(* (1') FIXED in /repo (fccfe9a): a subscript that selects an EMPTY tuple component has no bits
+   ("u[0]" of u: Tuple[Tuple[()], bool] was ONE fabricated symbol): the former counterexample holds *)
+Lemma subscript_of_empty_ex :
+  let args := [(1%nat, TTuple [TTuple []; TBool])] in
+  env_ok enc (fun _ => true) (arg_env args) [(1%nat, VT [VT []; VB true])] /\ env_canon (arg_env args)
+  /\ trans_exp enc (arg_env args) (ESub 1%nat [0%nat]) = Some (TTuple [], Nd [])
+  /\ eval_exp [(1%nat, VT [VT []; VB true])] (ESub 1%nat [0%nat]) = Some (VT [])
+  /\ den (fun _ => true) (TTuple [], Nd []) = Some (VT []).
 Proof.
-  set (args := [(1%nat, TTuple [TTuple []; TBool])]).
-  exists enc, (fun _ => true), (arg_env args), [(1%nat, VT [VT []; VB true])], (ESub 1%nat [0%nat]). do 2 eexists.
-  refine (conj _ (conj (arg_env_canon args) (conj _ (conj _ (conj _ _))))).
-  - apply (arg_env_ok enc (fun _ => true) args [VT [VT []; VB true]]). constructor; [reflexivity|constructor].
-  - reflexivity.
-  - reflexivity.
-  - cbn. discriminate.
-  - reflexivity.
+  intros args. refine (conj _ (conj (arg_env_canon args) (conj eq_refl (conj eq_refl eq_refl)))).
+  apply (arg_env_ok enc (fun _ => true) args [VT [VT []; VB true]]). constructor; [reflexivity|constructor].
 Qed.
 
 (* (2) FIXED in /repo (87c4060): a tuple-typed value is bound with the bit names of its type.
@@ -2499,7 +2488,7 @@ Qed.
    their raw bit lists (Qint ^ Qchar), a value of another kind is cropped to the declared return
    type (`return 'a'` where Qint[2] is declared) *)
 Lemma accepted_without_meaning :
-  (exists num rho G V e r, env_ok num rho G V /\ env_canon G /\ sub_ne G e = true /\
+  (exists num rho G V e r, env_ok num rho G V /\ env_canon G /\
      trans_exp num G e = Some r /\ eval_exp V e = None)
   /\ (exists num args rt body lf, trans_fun num args rt body = Some lf /\
         forall vs, eval_fun args rt body vs = None).
@@ -2509,7 +2498,7 @@ Proof.
     set (num := fun s : sname => match s with [1; i] => i | [2; i] => 8 + i | _ => 99 end%nat).
     exists num, (fun _ => false), (arg_env args), [(1%nat, VI 8 0); (2%nat, VC 0)],
            (EBin AoXor (EName 1%nat) (EName 2%nat)). eexists.
-    refine (conj _ (conj (arg_env_canon args) (conj eq_refl (conj _ eq_refl)))).
+    refine (conj _ (conj (arg_env_canon args) (conj _ eq_refl))).
     + apply (arg_env_ok num (fun _ => false) args [VI 8 0; VC 0]).
       constructor; [vm_compute; reflexivity|]. constructor; [vm_compute; reflexivity|constructor].
     + vm_compute. reflexivity.
@@ -2545,18 +2534,6 @@ Fixpoint frag (e : pexp) : bool :=
   | _ => false
   end.
 
-Lemma frag_sub_ne G : forall e, frag e = true -> sub_ne G e = true.
-Proof.
-  induction e as [x|x p|op l IH|op a IHa|c t f IHc IHt IHf|c|l|l IH|op a b IHa IHb|op a b IHa IHb|t c|a IHa|a IHa|]
-    using pexp_ind2; cbn [frag sub_ne]; intros H; try reflexivity; try discriminate.
-  - rewrite forallb_forall in H |- *. rewrite Forall_forall in IH. intros x Hx. apply IH; [exact Hx|now apply H].
-  - now apply IHa.
-  - apply andb_true_iff in H as [H H3]. apply andb_true_iff in H as [H1 H2]. now rewrite IHc, IHt, IHf.
-  - apply andb_true_iff in H as [H1 H2]. now rewrite IHa, IHb.
-  - destruct op; try discriminate; apply andb_true_iff in H as [H1 H2]; rewrite (IHa H1); try (now rewrite IHb);
-      destruct b; try discriminate; reflexivity.
-Qed.
-
 Lemma ib_kind v : ib_ty (type_of v) = true -> (exists b, v = VB b) \/ (exists w n, v = VI w n /\ (0 < w)%nat).
 Proof.
   destruct v as [b|w n| | |]; cbn; try discriminate; intros H; [left; eauto|right].
@@ -2582,7 +2559,7 @@ Section Total.
     exists v, eval_exp V e = Some v /\ ib_ty (type_of v) = true.
 
   Lemma total_sem e r v : frag e = true -> trans_exp num G e = Some r -> eval_exp V e = Some v -> sem rho r v.
-  Proof. intros F Ht Hv. exact (trans_exp_sound num rho G V e r v Hok Hcan (frag_sub_ne G e F) Ht Hv). Qed.
+  Proof. intros F Ht Hv. exact (trans_exp_sound num rho G V e r v Hok Hcan Ht Hv). Qed.
 
   Lemma total_list l : Forall total_at l -> forallb frag l = true ->
     forall rs, trans_list num G l = Some rs ->
@@ -2758,7 +2735,7 @@ Theorem trans_exp_total num rho G V e r :
 Proof.
   intros Hok Hcan Hib F Ht.
   destruct (trans_exp_total_at num rho G V Hok Hcan Hib e F r Ht) as (v & Hv & _).
-  exists v. split; [exact Hv|]. exact (trans_exp_sound num rho G V e r v Hok Hcan (frag_sub_ne G e F) Ht Hv).
+  exists v. split; [exact Hv|]. exact (trans_exp_sound num rho G V e r v Hok Hcan Ht Hv).
 Qed.
 
 Lemma arg_env_ib args : forallb (fun a : ident * ty => ib_ty (snd a)) args = true -> ib_env (arg_env args).
@@ -2774,15 +2751,15 @@ Qed.
 (* statements collected for Prop_C01_texp.v                            *)
 (* ================================================================== *)
 Lemma trans_exp_type num rho G V e r v :
-  env_ok num rho G V -> env_canon G -> env_good G -> sub_ne G e = true ->
+  env_ok num rho G V -> env_canon G -> env_good G ->
   trans_exp num G e = Some r -> eval_exp V e = Some v ->
   type_of v = fst r /\ length (flat (snd r)) = ty_size (fst r) /\ wf_res r /\ ty_good (fst r) = true.
 Proof.
-  intros H1 H2 H3 Hn H4 H5.
-  pose proof (trans_exp_sound num rho G V e r v H1 H2 Hn H4 H5) as H.
+  intros H1 H2 H3 H4 H5.
+  pose proof (trans_exp_sound num rho G V e r v H1 H2 H4 H5) as H.
   apply decode_type in H. rewrite map_length in H. destruct H as [A B].
-  repeat split; try assumption; [exact (trans_exp_wf num rho G V H1 H2 H3 e r v Hn H4 H5)|].
-  rewrite <- A. exact (trans_exp_good num rho G V H1 H2 H3 e Hn r v H4 H5).
+  repeat split; try assumption; [exact (trans_exp_wf num rho G V H1 H2 H3 e r v H4 H5)|].
+  rewrite <- A. exact (trans_exp_good num rho G V H1 H2 H3 e r v H4 H5).
 Qed.
 
 Lemma rejects_constants num G :
